@@ -10,9 +10,10 @@ import impl_optimise as IO
 
 PID = "C20"
 THEOREMS = ["PauLie.C20.C20_move_closure", "PauLie.C20.C20_iterate_moves", "PauLie.C20.C20_run_preserves",
-            "PauLie.C20.C20_explore_covers_run", "PauLie.Tie.edges_tie",
+            "PauLie.C20.C20_explore_covers_run", "PauLie.C20.C20_min_generators", "PauLie.C20.C20_distinct",
+            "PauLie.C20.C20_run_distinct", "PauLie.Tie.edges_tie",
             "PauLie.Closure.closureList_sound_complete", "PauLie.Closure.closureList_exhausted", "PauLie.Closure.clo_contract"]
-IMPORTS = ["PauLieVerif.Properties.C20", "PauLieVerif.Proofs.Closure", "PauLieVerif.Proofs.TieApps"]
+IMPORTS = ["PauLieVerif.Properties.C20", "PauLieVerif.Properties.C20Min", "PauLieVerif.Proofs.Closure", "PauLieVerif.Proofs.TieApps"]
 
 def su_gens(rng, n, kind=None):
     """a generating set of su(2^n): random strings until the closure is everything, or a 2-local universal family,
@@ -351,7 +352,7 @@ def known_match(stream, line, why):
 def main(tier):
     return standard_main(PID, tier, "other", THEOREMS, IMPORTS, build_streams, known_match=known_match, rule=RULE,
         assumptions=["termination for ALL inputs and seeds is not proved: decided per input by exhaustive exploration of the random choices in the model",
-                     "that su(2^n) needs at least 2n+1 Pauli generators (hence no duplicates can appear) is a theorem of the literature, checked per input",
+                     "that su(2^n), n>=2, needs at least 2n+1 distinct Pauli generators (hence no duplicates can appear among 2n+1) is now proved (C20_min_generators, C20_distinct, C20_run_distinct); it is still also checked per input on the implementation",
                      "float floor(0.706*pairs) equals the exact rational floor for every ng < 400 (3000 thorough), checked on the implementation"])
 
 def replay(path):
